@@ -10,5 +10,7 @@ func TestWorld(t *testing.T) {
 	simkit.Main(t, "BL", map[string]simkit.PropertyFn{
 		"C28": runC28,
 		"C35": runC35,
+		"C29": runC29,
+		"C34": runC34,
 	})
 }
